@@ -21,6 +21,7 @@
 -/
 import MajoranaVerif.Proofs.Mvp3Spec
 import MajoranaVerif.Props.C01
+import MajoranaVerif.Proofs.MsiCoherence
 open GoInt Model Model.Seq Model.Mmu Model.Mvp3 LineCache Proofs.Mmu Proofs.Mvp3 Proofs.Refine
 
 namespace Props.C05
@@ -201,5 +202,116 @@ theorem not_Full_transparent : ¬ Full_transparent := by
 
 /-- … and the hypothesis rejects that run -/
 example : wfAccesses badApp badState 10 = false := by decide +kernel
+
+end Props.C05
+
+/-! ## C05 on the multi-core variants (MVP-7.0 / 7.1 / 8), at the level of the MSI protocol (work package COH)
+
+The abstract protocol model `Model.Msi` (part (b): states `st`, L1 copies `l1`, next level `mem`, requests with their
+checkpoints; actions start / proceed / push / evicted / complete / snoop / flush) is tied to the real cache controllers
+by the refinement replay of the C06 check (every pair of consecutive per-cycle snapshots of the real machines is
+explained by model steps) and satisfies the inductive invariant `Proofs.Msi.Inv` (`Props.C06`).  From that invariant
+(`Proofs/MsiCoherence.lean`): with `cur σ l` — the CURRENT VALUE of line `l`: the data of the core that holds it
+Modified, else the next level — no copy anywhere is stale, a read returns `cur`, only a completing write changes `cur`
+(exactly on its line, to its value), so along every history without a flush of a busy controller every read returns the
+value of the last completed write (or the initial memory).  Line contents are one abstract value per line. -/
+
+namespace Props.C05
+open Model.Msi Proofs.Msi Proofs.MsiCoherence
+
+variable {D : Type}
+
+/-- the current value of a line: the data of its Modified holder if there is one, else the next level -/
+abbrev Msi.cur (σ : Model.Msi.State D) (l : Model.Msi.Line) : D := Proofs.MsiCoherence.cur σ l
+
+/-- **(a) no stale copy anywhere**: every resident Shared or Modified copy of a line is the current value of the line -/
+theorem Msi.no_stale_copy (σ : Model.Msi.State D) (h : Inv σ) (c : Core) (l : Model.Msi.Line) (hst : σ.st c l ≠ .I) :
+    σ.l1 c l = some (Msi.cur σ l) :=
+  copy_is_cur h c l hst
+
+/-- **(b) a completing read returns the current value**: a read request in its last stage (`coReadFromL1`: the L1 copy
+has been sampled, `post()` has not run) holds exactly `Msi.cur` of its line … -/
+theorem Msi.read_returns_cur (σ : Model.Msi.State D) (h : Inv σ) (c : Core) (r : Req D) (hr : σ.req c = some r)
+    (hs : r.stage = .l1) (hrd : r.mode.isRead = true) : σ.l1 c r.line = some (Msi.cur σ r.line) :=
+  Proofs.MsiCoherence.read_returns_cur h c r hr hs hrd
+
+/-- … and that value cannot change while the read is in progress (no write to the line completes under its lock) -/
+theorem Msi.cur_stable_during_read (σ : Model.Msi.State D) (h : Inv σ) (c : Core) (r : Req D) (hr : σ.req c = some r)
+    (hrd : r.mode.isRead = true) (a : Action D) (ha : Safe σ a) :
+    Msi.cur (Model.Msi.step σ a) r.line = Msi.cur σ r.line :=
+  Proofs.MsiCoherence.cur_stable_during_read h hr hrd a ha
+
+/-- **(c) only a completing write changes the current value**: `complete c v` of a write request of core `c` on line
+`l` makes `Msi.cur l = v` and leaves every other line alone; every other safe action — start, proceed, push (fill),
+evicted, a completing read, a snoop eviction, a snoop WRITE-BACK (the value moves from the L1 of the Modified holder to
+the next level), an idle flush — leaves the current value of every line unchanged -/
+theorem Msi.cur_step (σ : Model.Msi.State D) (h : Inv σ) (a : Action D) (ha : Safe σ a) (l : Model.Msi.Line) :
+    Msi.cur (Model.Msi.step σ a) l = applyWrite (Msi.cur σ) (written σ a) l :=
+  Proofs.MsiCoherence.cur_step h a ha l
+
+/-- **every load returns the bytes most recently stored**: along every safe history from the initial state, a read
+that is about to complete holds the value of the LAST COMPLETED WRITE to its line (`writesOf`: the completed writes in
+order), or the initial memory if there was none -/
+theorem Msi.read_returns_last_write (n : Nat) (mem : Model.Msi.Line → D) (as : List (Action D))
+    (hs : SafeRun (Model.Msi.init n mem) as) (c : Core) (r : Req D)
+    (hr : (Model.Msi.run (Model.Msi.init n mem) as).req c = some r) (hst : r.stage = .l1) (hrd : r.mode.isRead = true) :
+    (Model.Msi.run (Model.Msi.init n mem) as).l1 c r.line =
+      some (lastWrite mem (writesOf (Model.Msi.init n mem) as) r.line) :=
+  Proofs.MsiCoherence.read_returns_last_write n mem as hs c r hr hst hrd
+
+/-- the same for the current value of every line, at every point of the history -/
+theorem Msi.cur_is_last_write (n : Nat) (mem : Model.Msi.Line → D) (as : List (Action D))
+    (hs : SafeRun (Model.Msi.init n mem) as) (l : Model.Msi.Line) :
+    Msi.cur (Model.Msi.run (Model.Msi.init n mem) as) l = lastWrite mem (writesOf (Model.Msi.init n mem) as) l := by
+  have := cur_run (inv_init n mem) as hs l
+  have e : Proofs.MsiCoherence.cur (Model.Msi.init n mem) = mem := funext (cur_init n mem)
+  rw [e] at this
+  exact this
+
+/-! non-vacuity: two cores, line 7 (initially 107): core 0 writes 11; core 1 reads (core 0 is snooped: write-back);
+core 1 writes 22 (upgrade); core 0 reads again (core 1 is snooped) -/
+
+def Msi.cohActions : List (Action Nat) :=
+  [.start 0 7 true, .proceed 0, .push 0 none, .complete 0 11,
+   .start 1 7 false, .snoop 0 7 .writeBack, .proceed 1, .push 1 none, .complete 1 0,
+   .start 1 7 true, .proceed 1, .complete 1 22,
+   .start 0 7 false, .snoop 1 7 .writeBack, .proceed 0, .push 0 none]
+
+def Msi.cohInit : Model.Msi.State Nat := Model.Msi.init 2 (fun l => l + 100)
+
+theorem Msi.cohSafe : SafeRun Msi.cohInit Msi.cohActions := by
+  unfold Msi.cohActions
+  repeat (first | exact trivial | refine ⟨Or.inl rfl, ?_⟩)
+
+/-- the values: after core 0's write the current value is 11 while the next level still holds 107; core 1's read (8
+actions in) holds 11 and the write-back has put 11 into the next level; at the end core 0's read holds 22, the completed
+writes are (7, 11), (7, 22), no core is Modified, the next level holds 22, line 8 is untouched -/
+def Msi.cohAt (k : Nat) : Model.Msi.State Nat := Model.Msi.run Msi.cohInit (Msi.cohActions.take k)
+
+example : ((Msi.cohAt 4).l1 0 7, Msi.cur (Msi.cohAt 4) 7, (Msi.cohAt 4).mem 7) = (some 11, 11, 107) := by decide
+example : ((Msi.cohAt 8).l1 1 7, Msi.cur (Msi.cohAt 8) 7, (Msi.cohAt 8).mem 7) = (some 11, 11, 11) := by decide
+example : ((Msi.cohAt 16).l1 0 7, Msi.cur (Msi.cohAt 16) 7, (Msi.cohAt 16).mem 7, Msi.cur (Msi.cohAt 16) 8, (Msi.cohAt 16).panic) = (some 22, 22, 22, 108, false) := by decide
+example : writesOf Msi.cohInit Msi.cohActions = [(7, 11), (7, 22)] := by decide
+
+/-- the theorem applied to that history: core 0's second read is in its last stage and holds the last completed write -/
+example : (Model.Msi.run Msi.cohInit Msi.cohActions).l1 0 7 = some (lastWrite (fun l => l + 100) (writesOf Msi.cohInit Msi.cohActions) 7) := by
+  have h := Msi.read_returns_last_write 2 (fun l => l + 100) Msi.cohActions Msi.cohSafe 0
+  cases hr : (Model.Msi.run (Model.Msi.init 2 (fun l => l + 100)) Msi.cohActions).req 0 with
+  | none => exact absurd hr (by decide)
+  | some r =>
+    have hl : r.line = 7 := by
+      have : ((Model.Msi.run (Model.Msi.init 2 (fun l => l + 100)) Msi.cohActions).req 0).map (·.line) = some 7 := by decide
+      rw [hr] at this; simpa using this
+    have hm : r.mode.isRead = true := by
+      have : ((Model.Msi.run (Model.Msi.init 2 (fun l => l + 100)) Msi.cohActions).req 0).map (·.mode.isRead) = some true := by decide
+      rw [hr] at this; simpa using this
+    have hs : r.stage = .l1 := by
+      have : ((Model.Msi.run (Model.Msi.init 2 (fun l => l + 100)) Msi.cohActions).req 0).map (fun r => isWait r.stage || (match r.stage with | .l1 => false | _ => true)) = some false := by decide
+      rw [hr] at this
+      simp only [Option.map_some, Option.some.injEq] at this
+      cases hst : r.stage <;> simp [hst, isWait] at this ⊢
+    have := h r hr hs hm
+    rw [hl] at this
+    exact this
 
 end Props.C05
